@@ -13,14 +13,27 @@ def _mentions_isdop(node):
     return any(isinstance(n, ast.Attribute) and n.attr == "_isdop" for n in ast.walk(node))
 
 
+def _method_eq_literals(test):
+    """string literals L for which the test contains `method == L` (structural, not textual)."""
+    out = []
+    for c in ast.walk(test):
+        if isinstance(c, ast.Compare) and len(c.ops) == 1 and isinstance(c.ops[0], ast.Eq):
+            l, r = c.left, c.comparators[0]
+            if isinstance(l, ast.Name) and l.id == "method" and isinstance(r, ast.Constant) and isinstance(r.value, str):
+                out.append(r.value)
+            elif isinstance(r, ast.Name) and r.id == "method" and isinstance(l, ast.Constant) and isinstance(l.value, str):
+                out.append(l.value)
+    return out
+
+
 def _method_branches(init):
     """[(label, body)] of the if/elif chain testing `method == "<lit>"`."""
     out = []
     for st in init.node.body:
-        if isinstance(st, ast.If) and "method ==" in src_of(st.test):
+        if isinstance(st, ast.If) and _method_eq_literals(st.test) and not any(isinstance(x, ast.Raise) for x in st.body):
             cur = st
             while True:
-                lits = [c.value for c in ast.walk(cur.test) if isinstance(c, ast.Constant) and isinstance(c.value, str)]
+                lits = _method_eq_literals(cur.test)
                 out.append(("/".join(lits) or src_of(cur.test), cur.body, cur))
                 if len(cur.orelse) == 1 and isinstance(cur.orelse[0], ast.If):
                     cur = cur.orelse[0]
@@ -28,6 +41,27 @@ def _method_branches(init):
                     out.append(("<else>", cur.orelse, cur))
                     break
     return out
+
+
+def _rejects(body, pred):
+    """does the branch body contain an `if`/`elif` whose test satisfies pred and whose body raises?"""
+    for st in body:
+        for n in ast.walk(st):
+            if isinstance(n, ast.If) and pred(n.test) and any(isinstance(x, ast.Raise) for x in n.body):
+                return True
+    return False
+
+
+def _tests_linop(test):
+    return any(
+        isinstance(c, ast.Call) and isinstance(c.func, ast.Name) and c.func.id == "isinstance" and len(c.args) == 2
+        and isinstance(c.args[0], ast.Name) and c.args[0].id == "ham" and "LinearOperator" in src_of(c.args[1])
+        for c in ast.walk(test)
+    )
+
+
+def _tests_timedep(test):
+    return any(isinstance(a, ast.Attribute) and a.attr == "_timedep" for a in ast.walk(test))
 
 
 def rule_kind_dispatch(ctx):
@@ -109,9 +143,8 @@ def rule_kind_dispatch(ctx):
             r.bad(Finding("kind-dispatch", "Evolution.__init__", f"method `{label}`: {why}", where=where, operand=label))
         # unsupported Hamiltonian kinds rejected (reference siblings)
         if label in ("solve", "expm"):
-            s = "\n".join(src_of(x) for x in body)
-            for kind, pat in (("LinearOperator", "isinstance(ham, LinearOperator)"), ("time-dependent", "self._timedep")):
-                if pat in s and "raise TypeError" in s:
+            for kind, pred in (("LinearOperator", _tests_linop), ("time-dependent", _tests_timedep)):
+                if _rejects(body, pred):
                     r.ok(f"{construct}[{kind} rejected]")
                 else:
                     r.bad(Finding("kind-dispatch", "Evolution.__init__", f"method `{label}` does not reject a {kind} Hamiltonian", where=where, operand=f"{label}:{kind}"))
@@ -154,10 +187,17 @@ def rule_update_order(ctx):
             args = [src_of(a) for a in c.args]
             if len(args) < 2 or args[1] != "self._pt" or args[0] != "t":
                 problems.append(f"callback receives {args}, expected (t, self._pt, ...)")
-        src = src_of(f.node)
-        uses_pe0 = "self.pe0" in src
-        d_t0 = "t - self.t0" in src
-        d_t = "t - self.t)" in src or "t - self.t\n" in src or "t - self._t" in src
+        # structural: subtractions `t - self.<origin>` (followed through locals), loads of self.pe0 / self._pt
+        tparam = [a.arg for a in f.node.args.args if a.arg != "self"][:1]
+        tname = tparam[0] if tparam else "t"
+        origins = set()
+        for b in ast.walk(f.node):
+            if isinstance(b, ast.BinOp) and isinstance(b.op, ast.Sub) and isinstance(b.left, ast.Name) and b.left.id == tname \
+                    and isinstance(b.right, ast.Attribute) and isinstance(b.right.value, ast.Name) and b.right.value.id == "self":
+                origins.add(b.right.attr)
+        uses_pe0 = any(isinstance(a, ast.Attribute) and a.attr == "pe0" and isinstance(a.ctx, ast.Load) for a in ast.walk(f.node))
+        d_t0 = "t0" in origins
+        d_t = bool(origins & {"t", "_t"})
         if uses_pe0 and (not d_t0 or d_t):
             problems.append("uses the initial eigenbasis state pe0 but does not measure time from t0")
         if not uses_pe0:
@@ -176,4 +216,203 @@ def rule_update_order(ctx):
         else:
             r.ok(construct, sample={"routine": name, "origin": "t0 with pe0" if uses_pe0 else "current time with _pt"})
     r.floor(n, 3, "state-assigning update routines")
+    return r
+
+
+# ---------------------------------------------------------------------------
+# right-hand sides, integrator set-up, accessors
+# ---------------------------------------------------------------------------
+
+def _inner_function(f):
+    for st in f.node.body:
+        if isinstance(st, ast.FunctionDef):
+            inner = st
+    rets = [st for st in f.node.body if isinstance(st, ast.Return)]
+    for st in f.node.body:
+        if isinstance(st, ast.FunctionDef) and rets and isinstance(rets[-1].value, ast.Name) and rets[-1].value.id == st.name:
+            return st
+    return None
+
+
+def _has_minus_i(node):
+    """a factor -1j (USub on an imaginary literal, or a negative imaginary constant) multiplies the returned value."""
+    for x in ast.walk(node):
+        if isinstance(x, ast.UnaryOp) and isinstance(x.op, ast.USub) and isinstance(x.operand, ast.Constant) and isinstance(x.operand.value, complex) and x.operand.value.imag > 0:
+            return True
+    return False
+
+
+def _has_plus_i_only(node):
+    cs = [x for x in ast.walk(node) if isinstance(x, ast.Constant) and isinstance(x.value, complex)]
+    return bool(cs) and not _has_minus_i(node)
+
+
+def rule_evo_eq_table(ctx):
+    r = RuleResult(
+        "evo-eq-table",
+        "the table of right-hand sides _calc_evo_eq: every closed-system combination (ket/dop x dense/sparse x "
+        "time-independent/-dependent) has an entry; the entry's kind agrees with its key (a ket key never maps to a "
+        "density-operator equation, a time-dependent key maps to an equation that evaluates ham(t) at the integrator's "
+        "time argument and a time-independent one never calls ham); every Schroedinger right-hand side carries the factor "
+        "-i, and the density-operator ones form hrho - hrho^dagger",
+    )
+    f = ctx.prog.func(EVO, "_calc_evo_eq")
+    if f is None:
+        raise AnalysisError("_calc_evo_eq not found")
+    table = None
+    for n in ast.walk(f.node):
+        if isinstance(n, ast.Dict) and n.keys and all(isinstance(k, ast.Tuple) for k in n.keys):
+            table = n
+    if table is None:
+        raise AnalysisError("_calc_evo_eq: table not found")
+    where = f"{f.module.relpath}:{f.lineno}"
+    entries = {}
+    for k, v in zip(table.keys, table.values):
+        key = const_value(k, None)
+        if key is None or not isinstance(v, ast.Name):
+            raise AnalysisError(f"_calc_evo_eq: entry {src_of(k)} not understood")
+        entries[tuple(int(x) for x in key)] = v.id
+    # argument order of the lookup must be the order of the parameters the keys are written in
+    look = [n for n in ast.walk(f.node) if isinstance(n, ast.Subscript) and isinstance(n.slice, ast.Tuple)]
+    if look:
+        names = [src_of(e) for e in look[-1].slice.elts]
+        if names != ["isdop", "issparse", "isopen", "timedep"]:
+            r.bad(Finding("evo-eq-table", "_calc_evo_eq", f"table is looked up with {names}, but its keys are written as (isdop, issparse, isopen, timedep)", where=where, operand="lookup-order"))
+        else:
+            r.ok("_calc_evo_eq[lookup]", nontrivial=False)
+    for isdop in (0, 1):
+        for sp in (0, 1):
+            for td in (0, 1):
+                key = (isdop, sp, 0, td)
+                name = entries.get(key)
+                construct = f"_calc_evo_eq{key}"
+                if name is None:
+                    r.bad(Finding("evo-eq-table", "_calc_evo_eq", f"no right-hand side for closed-system combination {key}", where=where, operand=str(key)))
+                    continue
+                g = ctx.prog.func(EVO, name)
+                if g is None:
+                    raise AnalysisError(f"right-hand side {name} not found")
+                inner = _inner_function(g)
+                if inner is None:
+                    raise AnalysisError(f"{name}: inner function not found")
+                problems = []
+                kind_dop = any(isinstance(x, ast.Call) and isinstance(x.func, ast.Attribute) and x.func.attr == "reshape" for x in ast.walk(inner)) or "dop" in name
+                if bool(isdop) != bool(kind_dop):
+                    problems.append(f"key says {'density operator' if isdop else 'ket'} but `{name}` is a {'density-operator' if kind_dop else 'ket'} equation")
+                tpar = inner.args.args[0].arg if inner.args.args else "_"
+                calls_ham = [x for x in ast.walk(inner) if isinstance(x, ast.Call) and isinstance(x.func, ast.Name) and x.func.id == "ham"]
+                if td:
+                    if not calls_ham:
+                        problems.append(f"time-dependent key but `{name}` never evaluates ham(t)")
+                    elif not all(len(c.args) == 1 and isinstance(c.args[0], ast.Name) and c.args[0].id == tpar for c in calls_ham):
+                        problems.append(f"`{name}` evaluates the Hamiltonian at `{src_of(calls_ham[0].args[0]) if calls_ham[0].args else ''}`, not at the integrator's time argument `{tpar}`")
+                else:
+                    if calls_ham:
+                        problems.append(f"time-independent key but `{name}` calls ham(...)")
+                if "vectorized" not in name and "lindblad" not in name:
+                    rets = [x for x in ast.walk(inner) if isinstance(x, ast.Return) and x.value is not None]
+                    if not rets or not all(_has_minus_i(x.value) for x in rets):
+                        problems.append(f"`{name}` does not multiply by -i (d/dt = -i H ...)")
+                    if isdop:
+                        comm = any(
+                            isinstance(b, ast.BinOp) and isinstance(b.op, ast.Sub) and isinstance(b.left, ast.Name)
+                            and b.left.id in {y.id for y in ast.walk(b.right) if isinstance(y, ast.Name)}
+                            and any(isinstance(y, ast.Attribute) and y.attr in ("T", "H") for y in ast.walk(b.right))
+                            for x in rets for b in ast.walk(x.value)
+                        )
+                        if not comm:
+                            problems.append(f"`{name}` does not form hrho - hrho^dagger")
+                if problems:
+                    for pr in problems:
+                        r.bad(Finding("evo-eq-table", "_calc_evo_eq", pr, where=f"{g.module.relpath}:{g.lineno}", operand=f"{key}:{pr[:30]}"))
+                else:
+                    r.ok(construct, sample={"key (isdop, sparse, open, timedep)": key, "equation": name})
+    return r
+
+
+def rule_integrator_setup(ctx):
+    r = RuleResult(
+        "integrator-setup",
+        "Evolution._start_integrator chooses the right-hand side from the state kind (self._isdop), the sparsity of the "
+        "Hamiltonian and self._timedep, in the table's argument order, and starts the integrator from the flattened "
+        "initial state at the initial time self.t0; the `t` / `pt` accessors switch between integrator and stored state on "
+        "the same test; update_to and at_times advance through the same installed routine; the integrator callbacks and the "
+        "`pt` accessor rebuild the state with the same reshape",
+    )
+    cls = ctx.prog.cls(EVO, "Evolution")
+    f = cls.methods.get("_start_integrator")
+    if f is None:
+        raise AnalysisError("Evolution._start_integrator not found")
+    where = f"{f.module.relpath}:{f.lineno}"
+    calls = [c for c in ast.walk(f.node) if isinstance(c, ast.Call) and isinstance(c.func, ast.Name) and c.func.id == "_calc_evo_eq"]
+    if len(calls) != 1:
+        raise AnalysisError("_start_integrator: call of _calc_evo_eq not found")
+    c = calls[0]
+    callee = ctx.prog.func(EVO, "_calc_evo_eq")
+    pos = list(callee.posparams)
+    bound = {}
+    for k, a in enumerate(c.args):
+        if k < len(pos):
+            bound[pos[k]] = a
+    for kw in c.keywords:
+        if kw.arg:
+            bound[kw.arg] = kw.value
+    want = {"isdop": lambda e: any(isinstance(x, ast.Attribute) and x.attr == "_isdop" for x in ast.walk(e)),
+            "issparse": lambda e: any(isinstance(x, ast.Call) and (getattr(x.func, "id", None) or getattr(x.func, "attr", None)) == "issparse" for x in ast.walk(e)),
+            "timedep": lambda e: any(isinstance(x, ast.Attribute) and x.attr == "_timedep" for x in ast.walk(e))}
+    for pname, pred in want.items():
+        e = bound.get(pname)
+        if e is not None and pred(e):
+            r.ok(f"_start_integrator[{pname}]", sample={"argument": pname, "value": src_of(e)})
+        else:
+            r.bad(Finding("integrator-setup", "Evolution._start_integrator", f"_calc_evo_eq receives `{src_of(e) if e is not None else '<default>'}` for `{pname}`", where=where, operand=pname))
+    iv = [c2 for c2 in ast.walk(f.node) if isinstance(c2, ast.Call) and isinstance(c2.func, ast.Attribute) and c2.func.attr == "set_initial_value"]
+    if len(iv) != 1 or len(iv[0].args) < 2:
+        raise AnalysisError("_start_integrator: set_initial_value(y0, t0) not found")
+    y0, t0 = iv[0].args[0], iv[0].args[1]
+    if isinstance(t0, ast.Attribute) and t0.attr == "t0" and src_of(t0.value) == "self":
+        r.ok("_start_integrator[t0]", sample={"initial time": src_of(t0)})
+    else:
+        r.bad(Finding("integrator-setup", "Evolution._start_integrator", f"the integrator is started at time `{src_of(t0)}`, not at self.t0", where=where, operand="t0"))
+    if any(isinstance(x, ast.Attribute) and x.attr == "_p0" for x in ast.walk(y0)):
+        r.ok("_start_integrator[p0]", nontrivial=False)
+    else:
+        r.bad(Finding("integrator-setup", "Evolution._start_integrator", f"the integrator is started from `{src_of(y0)}`, not from the initial state", where=where, operand="p0"))
+    # accessors
+    tests = {}
+    for name in ("t", "pt"):
+        g = cls.methods.get(name)
+        if g is None:
+            raise AnalysisError(f"Evolution.{name} accessor not found")
+        conds = [n.test for n in ast.walk(g.node) if isinstance(n, (ast.If, ast.IfExp))]
+        tests[name] = sorted(src_of(t) for t in conds)
+        reads_stepper = any(isinstance(x, ast.Attribute) and x.attr == "_stepper" for x in ast.walk(g.node))
+        reads_store = any(isinstance(x, ast.Attribute) and x.attr == ("_t" if name == "t" else "_pt") for x in ast.walk(g.node))
+        if reads_stepper and reads_store and conds:
+            r.ok(f"Evolution.{name}", nontrivial=False)
+        else:
+            r.bad(Finding("integrator-setup", f"Evolution.{name}", "accessor does not switch between the integrator's and the stored value", where=f"{g.module.relpath}:{g.lineno}", operand="switch"))
+    if tests["t"] == tests["pt"]:
+        r.ok("Evolution.t/pt[same test]", sample={"switch": tests["t"]})
+    else:
+        r.bad(Finding("integrator-setup", "Evolution.t/pt", f"`t` switches on {tests['t']} but `pt` on {tests['pt']}: time and state can come from different sources", where=where, operand="accessor-tests"))
+    # same reshape in pt accessor and integrator callbacks
+    def reshapes(node):
+        return {src_of(a) for x in ast.walk(node) if isinstance(x, ast.Call) and isinstance(x.func, ast.Attribute) and x.func.attr == "reshape" for a in [ast.Tuple(elts=list(x.args), ctx=ast.Load())]}
+    setup = cls.methods.get("_setup_callback")
+    rs_cb = reshapes(setup.node) if setup is not None else set()
+    rs_pt = reshapes(cls.methods["pt"].node)
+    if rs_cb and rs_pt and rs_cb == rs_pt:
+        r.ok("Evolution.pt/callbacks[reshape]", sample={"reshape": sorted(rs_pt)})
+    elif rs_cb and rs_pt:
+        r.bad(Finding("integrator-setup", "Evolution._setup_callback", f"integrator callbacks rebuild the state with reshape{sorted(rs_cb)} but the `pt` accessor with reshape{sorted(rs_pt)}: callbacks do not see the reported state", where=f"{setup.module.relpath}:{setup.lineno}", operand="reshape"))
+    # both drivers advance through the installed routine
+    for name in ("update_to", "at_times"):
+        g = cls.methods.get(name)
+        if g is None:
+            raise AnalysisError(f"Evolution.{name} not found")
+        if any(isinstance(x, ast.Call) and isinstance(x.func, ast.Attribute) and x.func.attr == "_update_method" for x in ast.walk(g.node)):
+            r.ok(f"Evolution.{name}[_update_method]", nontrivial=False)
+        else:
+            r.bad(Finding("integrator-setup", f"Evolution.{name}", "does not advance through self._update_method", where=f"{g.module.relpath}:{g.lineno}", operand="driver"))
     return r
